@@ -142,6 +142,14 @@ def replay_query(prop, path, wd):
     for c in rp["path"] or []:
         w.apply(c)
     S = w.project()
+    if rp["kind"] == "query-deep":
+        run = Run(prop, "quick", 0)
+        deep_stage(run, prop, wd, rp["n"])
+        if run.violations:
+            print(f"VIOLATION property={prop} replay={path}  # reproduced: {run.violations[0]['what'][:200]}")
+            return 1
+        print(f"replay of {path}: property {prop} holds on the current tree")
+        return 0
     if rp["kind"] == "query-rel":
         probes = P.run(w, S, rp["spec"])
     else:
@@ -164,6 +172,65 @@ def big_filter(minlinks, one_in):
     def f(ks):
         return json.loads(ks)["nl"] >= minlinks and P.h(ks) % one_in == 0
     return f
+
+
+def deep_stage(run, prop, wd, n=450):
+    """structures far deeper than the small pools: a chain of n vertices with a side branch created after / before it,
+    and an undirected cycle; judged by the same operators (TLC with a large thread stack)"""
+    records = []
+    for shape in ("chain-then-branch", "branch-then-chain", "undirected-path"):
+        consts = dict(ST.BASE, NV=n + 2, InitBV=n + 2, NL=n + 1, Kinds={"D", "U"})
+        w = W.World(consts, ST.base_state(consts), P.VERTEX_CLASSES["PlainVertex"])
+        if shape == "branch-then-chain":
+            w.apply({"op": "new", "k": "D", "a": [1, n + 2], "b": []})
+        if shape == "undirected-path":
+            for i in range(1, n + 2):
+                w.apply({"op": "new", "k": "U", "a": [i, i + 1], "b": []})
+        else:
+            for i in range(1, n + 1):
+                w.apply({"op": "new", "k": "D", "a": [i, i + 1], "b": []})
+        if shape == "chain-then-branch":
+            w.apply({"op": "new", "k": "D", "a": [1, n + 2], "b": []})
+        S = w.project()
+        cache = {}
+        probes = []
+        if prop == "C08":
+            attr = [0] * (n + 2)
+            attr[n - 20] = 1
+            attr[n + 1] = 1          # the far end of the chain's last link / the side branch
+            attr[5] = 2
+            for q in ("bfs", "dfsr", "dfsi"):
+                for val in (1, 2, 3):
+                    probes.append(P.exec_probe(w, P.desc(q, (1, val), attr=attr), cache))
+        else:
+            dirs = (0, 1) if shape == "undirected-path" else (0,)
+            for q in ("dftr", "dfti", "bft", "idftr", "idfti", "ibft"):
+                for d in dirs:
+                    probes.append(P.exec_probe(w, P.desc(q, (1, d, 2)), cache))
+        records.append({"id": len(records) + 1, "S": S, "probes": probes, "path": [], "shape": shape, "consts": consts})
+    jc = {k: records[0]["consts"][k] for k in ("NV", "NU", "NL", "NLaw")}
+    jc["Prop"] = prop
+    path = os.path.join(wd, f"deep-{prop}.json")
+    with open(path, "w") as f:
+        json.dump([{"id": r["id"], "S": r["S"], "probes": r["probes"]} for r in records], f)
+    res = tlc.run_tlc("JudgeQueries", tlc.make_cfg(jc, invariants=["Judged"]), wd, workers=1, tag=f"deep-{prop}",
+                      env={"EG_RECORDS": path}, heap="6g", stack="1000m", timeout=1800)
+    os.remove(path)
+    if res["distinct"] != len(records):
+        raise Machinery("deep-structure judge did not visit every record")
+    for v in res["json"]:
+        r = records[v["id"] - 1]
+        for j, e in zip(v["bad"], v["exp"]):
+            p = r["probes"][j - 1]
+            run.violation(f"deep:{r['shape']}:{p['q']}|Answer",
+                          f"{p['q']}{p['a']} on a {r['shape']} of {n} vertices answered {str(p['res'])[:120]} but the specification says {str(e)[:120]}",
+                          {"kind": "query-deep", "shape": r["shape"], "n": n, "probe": {k: p[k] for k in ("q", "a", "attr")}})
+    for r in records:
+        for p in r["probes"]:
+            run.count_class(f"deep:{r['shape']}:{p['q']}")
+            run.evaluations += 1
+    run.traces += len(records)
+    run.extra["deep_structures"] = {"vertices": n + 2, "shapes": [r["shape"] for r in records], "failing": len(res["json"])}
 
 
 def nontrivial_probe_class(c):
@@ -273,6 +340,7 @@ def _trav(prop, tier, seed, wd, replay, rule):
     if tier == "thorough":
         name, consts = cfgs[0]
         run_config(run, prop, name + "+cache", consts, wd, spec, caching=True)
+    deep_stage(run, prop, wd, 450 if tier == "quick" else 800)
     run.exhaustive = True
     run.assumptions = ASSUME
     mandatory = [lambda c: "selfloop" in c, lambda c: "parallel" in c, lambda c: "mixed" in c,
@@ -311,7 +379,7 @@ def c08(tier, seed, wd, replay):
                 "Vertex, a subclass, and subclasses whose instances are falsy (__bool__ False, __len__ 0); TLC compares the "
                 "returned vertex with the first match of the corresponding default traversal operator; class = (search, number "
                 "of matches, start matches, universe kind, some vertex lacks the attribute); non-trivial = at least one match")
-    vectors = 4 if tier == "quick" else 9
+    vectors = 5 if tier == "quick" else 10
     spec = {"kind": "C08", "seed": seed, "vectors": vectors}
     if tier == "quick":
         lemma_run(run, "C08", "lemma-3x2-D", qcfg("l", NV=3, InitBV=3, Kinds={"D", "U"}, OnlyOps={"new"})[1], wd)
@@ -340,6 +408,7 @@ def c08(tier, seed, wd, replay):
         name, consts = qcfg("graphs-4x4-D", NV=4, InitBV=4, NL=4, Kinds={"D"}, OnlyOps={"new"}, AllowNone=False)
         run_config(run, "C08", name + ":Vertex", consts, wd, {"kind": "C08", "seed": seed, "vectors": 6, "big": True},
                    probe_filter=lambda ks: json.loads(ks)["nl"] == 4 and P.h(ks) % 3 == 0)
+    deep_stage(run, "C08", wd, 450 if tier == "quick" else 800)
     run.exhaustive = True
     run.assumptions = ASSUME + ["Python values are abstracted into equality classes by the executor (1 == 1.0 == True; equal strings built at run time)"]
     mandatory = [lambda c: "matches2" in c, lambda c: "startmatch" in c, lambda c: "uni=part" in c,
